@@ -530,7 +530,7 @@ def irCfg (c : Sexp) : Ir.Cfg :=
   | .list (.atom "cfg" :: _ :: .atom kind :: .list ps :: _ :: .list bs :: _) =>
     { isFunction := kind == "fn", params := ps.map vnameOf,
       blocks := bs.map (fun b => match b with
-        | .list [.atom "b", _, _, _, _, .list sts] => { stmts := sts.map irStmt }
+        | .list [.atom "b", _, _, .list pr, _, .list sts] => { stmts := sts.map irStmt, npreds := pr.length }
         | _ => { stmts := [] }) }
   | _ => { isFunction := false, params := [], blocks := [] }
 
